@@ -367,6 +367,13 @@ def correspond(ctx, corr, model_ok):
                 corr.oracle_failures.append({'what': 'first frame on the new transport is %s, not SETUP (request issued while '
                                                      'connecting): %s' % (w[0], w), 'scenario': 'while-connecting',
                                              'suspends': suspends, 'cause': cause, 'policy': {}, 'acts': [], 'loss_kinds': []})
+    corr.oracle_failures.extend(katimeout_oracle())
+    corr.count('keepalive timeout -> reconnect with a suspending connect()', 3)
+    from harness.props import c01
+    for f in c01.reconnect_oracle():
+        corr.oracle_failures.append({'what': f['what'] + ' ' + f['detail'][:200], 'scenario': 'stale-partial',
+                                     'policy': {}, 'acts': [], 'loss_kinds': []})
+    corr.count('reconnect with a partially reassembled frame left over', 4)
     from harness.props import c07
     for f in c07.reconnect_oracle():
         corr.oracle_failures.append({'what': f['what'] + ' ' + f['detail'][:200], 'scenario': 'reconnect-window',
@@ -396,6 +403,11 @@ def search(ctx, budget_s):
 
 def replay(obj):
     case = obj['case']
+    if case.get('scenario') == 'katimeout-reconnect':
+        return bool(katimeout_oracle())
+    if case.get('scenario') == 'stale-partial':
+        from harness.props import c01
+        return bool(c01.reconnect_oracle())
     if case.get('scenario') == 'reconnect-window':
         from harness.props import c07
         cs, ns, cause = case['reconnect_case']
@@ -413,3 +425,53 @@ def replay(obj):
     if orc:
         print('oracle:', orc)
     return bool(orc)
+
+
+def katimeout_reconnect(connect_suspends):
+    """the server falls silent; on_keepalive_timeout reconnects; the next transport's connect() takes a few iterations.
+    The fresh connection must send SETUP, serve a request and send keep-alives again."""
+    from rsocket.rsocket_client import RSocketClient
+    from rsocket.request_handler import BaseRequestHandler
+    from rsocket.payload import Payload
+    loop = sim.new_loop()
+    sim.patch_clock(loop)
+    T = sim.make_transport_class()
+    ts = [T(lenreq=True, name='a'), T(lenreq=True, connect_suspends=connect_suspends, name='b')]
+
+    async def provider():
+        for x in ts:
+            yield x
+
+    class H(BaseRequestHandler):
+        async def on_keepalive_timeout(self, since, rsocket):
+            await rsocket.reconnect()
+    box = {}
+    try:
+        def mk():
+            box['c'] = RSocketClient(provider(), handler_factory=H, keep_alive_period=timedelta(seconds=1),
+                                     max_lifetime_period=timedelta(seconds=3))
+            asyncio.create_task(box['c'].connect())
+        loop.run(mk)
+        loop.settle()
+        c = box['c']
+        loop.run_until(loop.time() + 7.5)        # silence: the timeout fires, the handler reconnects
+        loop.settle()
+        loop.run(lambda: box.setdefault('f', c.request_response(Payload(b'after'))))
+        loop.settle()
+        loop.run_until(loop.time() + 2.5)        # keep-alives of the new connection (its server answers them)
+        new = [sim.parse_sent(b) for b in ts[1].sent]
+        return {'connected': ts[1].connected, 'first': new[0]['t'] if new else None,
+                'request_sent': any(f['t'] == 'RequestResponse' and f.get('d') == b'after' for f in new),
+                'keepalives': sum(1 for f in new if f['t'] == 'Keepalive')}
+    finally:
+        loop.finish()
+
+
+def katimeout_oracle():
+    out = []
+    for s in (0, 1, 3):
+        r = katimeout_reconnect(s)
+        if not r['connected'] or r['first'] != 'Setup' or not r['request_sent'] or r['keepalives'] < 1:
+            out.append({'what': 'after a keepalive timeout the reconnected client is not a working connection: %r' % (r,),
+                        'scenario': 'katimeout-reconnect', 'suspends': s, 'policy': {}, 'acts': [], 'loss_kinds': []})
+    return out
